@@ -19,8 +19,13 @@ def main():
         meta = json.load(open(os.path.join(d, 'meta.json')))
         props = meta.get('detected_by_quick_checks') or [meta['breaks_property']]
         target = meta['breaks_property']
+        env = dict(os.environ)
+        if not meta.get('detected_by_quick_checks') and meta.get('detected_by_thorough_checks'):
+            env['MUTANT_TIER'] = 'thorough'          # changes that only the deep tier can resolve
+            if name.startswith('C17-sampling'):
+                env['MUTANT_ONLY'] = 'sampling_large'
         p = subprocess.run([sys.executable, os.path.join(HERE, 'tools', 'mutants.py'), '--patch', os.path.join(d, 'patch.diff'), target],
-                           stdout=subprocess.PIPE, stderr=subprocess.STDOUT, text=True)
+                           stdout=subprocess.PIPE, stderr=subprocess.STDOUT, text=True, env=env)
         first = [ln for ln in p.stdout.splitlines() if 'exit=' in ln]
         verdict = first[0].split()[-1] if first else 'ERROR'
         why = [ln.strip() for ln in p.stdout.splitlines() if ln.strip().startswith('sub-property')]
